@@ -9,6 +9,7 @@ import (
 	"flag"
 	"fmt"
 	"os"
+	"os/signal"
 	"strconv"
 	"sync"
 	"syscall"
@@ -43,15 +44,20 @@ func Frame(id string, body []byte) []byte {
 }
 
 type ackLog struct {
-	fd  int
-	mu  sync.Mutex
-	off int64
+	fd   int
+	pipe bool
+	mu   sync.Mutex
+	off  int64
 }
 
 func (a *ackLog) line(s string) {
 	a.mu.Lock()
 	defer a.mu.Unlock()
 	b := []byte(s + "\n")
+	if a.pipe {
+		syscall.Write(a.fd, b)
+		return
+	}
 	n, _ := syscall.Pwrite(a.fd, b, a.off)
 	a.off += int64(n)
 }
@@ -69,14 +75,29 @@ func main() {
 	recLen := flag.Int("reclen", 40, "body length")
 	pathOverride := flag.String("path", "", "FileSink.Path override (e.g. /dev/stdout)")
 	fileName := flag.String("file", "audit.log", "")
+	fsize := flag.Int("fsize", 0, "RLIMIT_FSIZE for this process (a write that crosses it is short, the next one fails with EFBIG); needs -ack -")
 	flag.Parse()
 
-	fd, err := syscall.Open(*ack, syscall.O_CREAT|syscall.O_WRONLY|syscall.O_TRUNC, 0o644)
-	if err != nil {
-		fmt.Fprintln(os.Stderr, "ack log:", err)
-		os.Exit(3)
+	var al *ackLog
+	if *ack == "-" {
+		// stdout must be a pipe here: pipes are not subject to RLIMIT_FSIZE
+		al = &ackLog{fd: 1, pipe: true}
+	} else {
+		fd, err := syscall.Open(*ack, syscall.O_CREAT|syscall.O_WRONLY|syscall.O_TRUNC, 0o644)
+		if err != nil {
+			fmt.Fprintln(os.Stderr, "ack log:", err)
+			os.Exit(3)
+		}
+		al = &ackLog{fd: fd}
 	}
-	al := &ackLog{fd: fd}
+	if *fsize > 0 {
+		signal.Ignore(syscall.SIGXFSZ)
+		lim := syscall.Rlimit{Cur: uint64(*fsize), Max: uint64(*fsize)}
+		if err := syscall.Setrlimit(syscall.RLIMIT_FSIZE, &lim); err != nil {
+			fmt.Fprintln(os.Stderr, "setrlimit:", err)
+			os.Exit(3)
+		}
+	}
 	path := *dir
 	if *pathOverride != "" {
 		path = *pathOverride
